@@ -53,6 +53,9 @@ def mixed(rng):
 
 # Snippets that make every registered syntax rule look at something (C13/C12/C20).
 RULE_TRIGGERS = [
+    # multi-line string literals: characters str.splitlines() breaks at, and continuation lines with mixed tab/space indentation
+    "text = '''one two three\x85four\n \tmixed\n'''\n", 'doc = \"\"\"a\x0cb\x0bc\n\t bad\n  \tworse\n\"\"\"', "s = '''\x1c\x1d\x1e\n \t \tx'''",
+    'def f():\n    \"\"\"summary\x0c\n\n    \tbody\n \t   end\n    \"\"\"\n', "x = [\n    '''a \n\t b''',\n]\n", "b = b'''\x85\n \tz\n'''\ny = 1",
     # branches of errors.py that tools/linecov.py showed the workload never executed
     'from __future__ import barry_as_FLUFL\n', 'from __future__ import barry_as_FLUFL, division\n', 'x = 1\nfrom __future__ import barry_as_FLUFL\n',
     '{1, 2} += 1\n', '{1: 2} += 1\n', '{**a} += 1\n', '{} += 1\n', '[x for x in y] += 1\n', '{x for x in y} += 1\n', '{x: 1 for x in y} += 1\n',
